@@ -734,7 +734,10 @@ Example gen_begins_redef_runs :
   begins_agree_redef (mkhdr 2 3 exb_dims [] [exb_var 97 [1; 2] 3; exb_var 98 [0; 1] 5])
                      2000 64 4 4 (l_begin_rec (exr_lay 0 0 4 4)) (exr_lay 0 0 4 4) [false; true] = true /\
   begins_agree_redef (mkhdr 2 3 exb_dims [] [exb_var 96 [0; 2] 4; exb_var 97 [1; 2] 3; exb_var 98 [0; 1] 5])
-                     0 0 4 4 (l_begin_rec (exr_lay 0 100 512 4)) (exr_lay 0 100 512 4) [false; true] = true.
+                     0 0 4 4 (l_begin_rec (exr_lay 0 100 512 4)) (exr_lay 0 100 512 4) [false; true] = true /\
+  (* a previous begin_rec below the old one: the old begin_rec wins *)
+  begins_agree_redef (mkhdr 2 3 exb_dims [] [exb_var 97 [1; 2] 3; exb_var 98 [0; 1] 5])
+                     0 0 4 4 0 (exr_lay 0 100 512 4) [false; true] = true.
 Proof. repeat split; vm_compute; reflexivity. Qed.
 
 Print Assumptions gen_begins_redef_fixed_partial.
